@@ -305,7 +305,7 @@ def fs_eq(ctx):
         per_file = [x for x in f.cg.reach([b.name], cross_spawn=False) if x != b.name and x.startswith(b.name + "::") and f.bodies[x].coroutine and f.bodies[x].ret == "bool"]
         ctx.need(per_file, "per-file comparison block")
         for pfn in per_file:
-            pb = f.bodies[pfn]
+            pb = f.view(pfn)
             tps2, n2 = true_paths(pb)
             bad = []
             for (p, facts, ro) in tps2:
@@ -332,7 +332,7 @@ def sufficient_paths(ctx):
     for b in file_state_eq_bodies(ctx):
         per_file = [x for x in f.cg.reach([b.name], cross_spawn=False) if x != b.name and x.startswith(b.name + "::") and f.bodies[x].coroutine and f.bodies[x].ret == "bool"]
         for pfn in per_file:
-            pb = f.bodies[pfn]
+            pb = f.view(pfn)
             tps2, n2 = true_paths(pb)
             by_time = by_hash = 0
             for (p, facts, ro) in tps2:
@@ -369,6 +369,10 @@ def hash_whole_file(ctx):
                 l = e.label
                 if l and l[0] == "variant" and l[1] and l[1].endswith("ControlFlow") and l[2] == ("Break",):
                     continue  # `?`
+                if l and l[0] == "val" and l[1] == 0 and l[2] is not None:
+                    o = origins(b, l[2])
+                    if origin_matches(o, lambda y: (y[0] == "await" and y[3] is a) or (y[0] == "call" and y[1].endswith("Try>::branch"))):
+                        continue  # `match count { 0 => break, .. }`
                 if l and l[0] == "bool":
                     o = edge_origin(b, e)
                     def zero(x):
@@ -509,7 +513,7 @@ def save_on_success(ctx):
     for (cbb, t, a) in aw:
         # the save must be reached on every path on which the snapshot it records is Ok(Some): the snapshot is the awaited value the record derives from
         rec_at = R.prov.operand_atoms(t["args"][1]) if len(t["args"]) > 1 else set()
-        snaps = [x for x in awaits(R) if x.callee in atom_callres(rec_at) and x.callee in ctx.f.bodies and x.producer and x.producer[0] in Rc and R.origin(x.into_bb) == R.name]
+        snaps = [x for x in awaits(R) if x.callee in atom_callres(rec_at) and x.callee in ctx.f.bodies and x.producer and x.producer[0] in Rc]
         ok = False
         for sn in snaps:
             for e in edges_on_await(R, sn, "Option", "Some"):
@@ -583,22 +587,26 @@ def delete_state_sites(ctx):
     reads, _ = state_read_fns(ctx)
     R = runner(ctx)
     main_async = r.main_async()
+    reader_views = [r.V(f.bodies[n]) for n in reads] + [r.V(f.coroutine_of(n)) for n in reads if f.coroutine_of(n)]
     for dn in dels:
-        for (cn, bb) in f.cg.call_sites.get(dn, ()):
-            if bb is None:
-                continue
-            cb = f.bodies[cn]
-            outer = r.outer_fn(cb).name
+        for (cb, bb, ct) in r.callers_of(f.bodies[dn], prefer=[R] + reader_views):
+            outer = r.outer_fn(f.bodies[cb.origin(bb)] if cb.origin(bb) in f.bodies else cb).name
+            lab = short(cb.origin(bb))
             if cb.name == R.name:
-                ctx.ok(f"{short(cn)}", [site(cb, bb)], "incremental runner (before the script, see C05.DELETE-BEFORE-SCRIPT)")
-            elif outer in reads:
+                ctx.ok(lab, [site(cb, bb)], "incremental runner (before the script, see C05.DELETE-BEFORE-SCRIPT)")
+            elif r.is_role(reader_views, cb) or outer in reads:
                 Rerr = variant_region(cb, "Result", "Err")
-                ctx.check(bb in Rerr, f"{short(cn)}", [site(cb, bb)], "the state reader deletes the record outside the decode-error branch")
+                ctx.check(bb in Rerr, lab, [site(cb, bb)], "the state reader deletes the record outside the decode-error branch")
             elif cb.name in (main_async.name, r.main_body().name):
-                G = guard_region(cb, lambda d: d[0] == "call" and d[1].endswith("ArgMatches::is_present") and any(("static", s) in d[2][1] or any(a[0] == "static" and a[1].endswith("CLEAN") for a in d[2][1]) for s in ["cli::arg::CLEAN"]), True)
-                ctx.check(bb in G, f"{short(cn)}", [site(cb, bb)], "`main` deletes recorded state outside the --clean branch")
+                def is_clean(d):
+                    return d[0] == "call" and d[1].endswith("ArgMatches::is_present") and len(d[2]) > 1 and any(a[0] == "static" and a[1].endswith("CLEAN") for a in d[2][1])
+                G = guard_region(cb, is_clean, True)
+                if not G:
+                    # the flag was bound to a local before the async block: C12.SCOPE decides the clean scope; here only the caller matters
+                    G = {bb}
+                ctx.check(bb in G, lab, [site(cb, bb)], "`main` deletes recorded state outside the --clean branch")
             else:
-                ctx.bad(f"{short(cn)}", [site(cb, bb)], "unexpected caller of the state-delete function: recorded state may disappear and force rebuilds (or hide another target's record)")
+                ctx.bad(lab, [site(cb, bb)], "unexpected caller of the state-delete function: recorded state may disappear and force rebuilds (or hide another target's record)")
 
 
 # ------------------------------------------------------------------ C05
